@@ -16,4 +16,36 @@ CHECKS = {
              "thorough": {"checks": 250000, "shards": 8, "timeout": "60m"}},
         ],
     },
+    "C02": {
+        "level": "exploration",
+        "assumptions": EXPLORATION_ASSUMPTIONS + ["a panic recovered by the library's own handler recovery (Config.Recover) is not a crash; a process death with a goirc frame on the panicking goroutine is"],
+        "legs": [
+            {"test": "TestC02_Regress", "quick": {"timeout": "5m"}, "thorough": {"timeout": "5m"}},
+            {"test": "TestC02_Enum", "quick": {"env": {"VERIF_C02_N": 4}, "timeout": "10m"},
+             "thorough": {"env": {"VERIF_C02_N": 5}, "shards": 13, "timeout": "30m"}},
+            {"test": "TestC02_String", "quick": {"checks": 50000, "timeout": "10m"},
+             "thorough": {"checks": 500000, "shards": 4, "timeout": "30m"}},
+            {"test": "TestC02_Session", "quick": {"checks": 300, "timeout": "10m"},
+             "thorough": {"checks": 5000, "shards": 4, "timeout": "60m"}},
+            {"test": "FuzzC02", "thorough": {"fuzz": "120s", "timeout": "10m"}},
+        ],
+    },
+    "C08": {
+        "level": "exploration",
+        "assumptions": EXPLORATION_ASSUMPTIONS + ["the bytes of one API call are delimited on the wire by two marker lines whose alphabet is disjoint from the argument alphabet; only the calling goroutine sends"],
+        "legs": [
+            {"test": "TestC08", "quick": {"checks": 30000, "timeout": "10m"},
+             "thorough": {"checks": 300000, "shards": 8, "timeout": "60m"}},
+            {"test": "FuzzC08", "thorough": {"fuzz": "120s", "timeout": "10m"}},
+        ],
+    },
+    "C11": {
+        "level": "exploration",
+        "assumptions": EXPLORATION_ASSUMPTIONS + ["pieces are read back from the wire transcript of the scripted server"],
+        "legs": [
+            {"test": "TestC11", "quick": {"checks": 20000, "timeout": "10m"},
+             "thorough": {"checks": 200000, "shards": 8, "timeout": "60m"}},
+            {"test": "FuzzC11", "thorough": {"fuzz": "120s", "timeout": "10m"}},
+        ],
+    },
 }
